@@ -25,6 +25,8 @@ class StdVector(Plugin):
         name = canon_type(name)
         name = re.sub(r',\s*std::allocator<.*>\s*>$', '>', name)
         m = re.match(r'^std::(?:vector|deque)<(.*)>$', name)
+        if m: return m.group(1).strip()
+        m = re.match(r'^std::queue<(.*?)(?:,\s*std::deque<.*>\s*)?>$', name)        # std::queue over std::deque: push = push_back, pop = pop_front
         return m.group(1).strip() if m else None
 
     def type_for(self, name, unit):
@@ -83,6 +85,8 @@ class StdVector(Plugin):
         cn = self._cn(unit, base)
         if cn is None: return None
         name = me['name']
+        bt = base.get('type', {}); bq = canon_type(bt.get('desugaredQualType') or bt.get('qualType') or '')
+        if re.match(r'^std::queue<', re.sub(r'\s*\*$', '', bq)): name = {'push': 'push_back', 'pop': 'pop_front', 'emplace': 'push_back'}.get(name, name)
         recv = self._recv(unit, base, me.get('isArrow'))
         a = [unit.expr(x) for x in args]
         if name in ('size', 'empty', 'data', 'resize', 'reserve', 'clear', 'pop_back', 'pop_front'):
